@@ -325,6 +325,26 @@ func runC03(c *Ctx) {
 				}
 			}
 		})
+		// helper form: a NEW helper called with the reply sets RA on its parameter, unconditionally (one count per call)
+		raCalls := map[*ssa.Call]bool{}
+		eachInstr(h, func(in ssa.Instruction) {
+			ci, ok := in.(*ssa.Call)
+			if !ok {
+				return
+			}
+			for _, a := range ci.Call.Args {
+				for _, hs := range helperFieldStores(h, a) {
+					if hs.call != ci || hs.key != "github.com/miekg/dns.MsgHdr.RecursionAvailable" || raCalls[ci] {
+						continue
+					}
+					raCalls[ci] = true
+					nRA++
+					if b, isB := constBool(hs.st.Val); isB && b && hs.unconditional() && a == resp && instrDominates(ci, packCall) {
+						good = true
+					}
+				}
+			}
+		})
 		c.check(good && nRA == 1+len(sites.fallbacks), "ra-forced", instrPos(packCall), "RecursionAvailable = true is the only RA write (besides the fallback reply's own) and dominates packing", "RA is not set on every reply, or is overwritten afterwards")
 	}
 
@@ -340,6 +360,13 @@ func runC03(c *Ctx) {
 				}
 			}
 		})
+		if optStore == nil {
+			for _, hs := range helperFieldStores(h, resp) {
+				if hs.key == "github.com/miekg/dns.Msg.Extra" {
+					optStore = hs.call // the append happens inside the helper called here
+				}
+			}
+		}
 		if truncCall == nil {
 			c.fail("truncate", h.Pos(), "UDP replies are never truncated to the client's advertised size")
 		} else {
